@@ -6,7 +6,7 @@
   dim2/serialize.rs        `CMap2::serialize`                  `serialize`
   builder/io.rs            `CMapFile::try_from`                `parseFile`   (`stepLine`, `parseLines`)
   builder/io.rs            `parse_meta`                        `parseMeta`
-  builder/io.rs            `build_2d_from_cmap_file`           `build`  (`betasLoop`, `unusedLoop`, `verticesLoop`)
+  builder/io.rs            `build_2d_from_cmap_file`           `build`  (`parseRows`, `setLoop`, `unusedLoop`, `verticesLoop`)
   builder/structure.rs     `from_cmap_file(..).build()`        `load`
 
   A text is a list of lines, a line a list of tokens (maximal runs of non-blank characters).
@@ -38,7 +38,10 @@ abbrev Line := List String
 /-- 0 "incorrect format", 1 "could not parse dimension", 2 "could not parse dart number",
     3 "mismatch between requested dimension and header" -/
 def errBadMeta (c : Nat) : Err := ⟨"BadMetaData", [c]⟩
-/-- 0 "wrong number of beta functions", 1+i "wrong number of values for the beta i function" -/
+/-- 0 "wrong number of beta functions", 1+i "wrong number of values for the beta i function",
+    4 "non-null image of the null dart", 5 "beta image is not an existing dart",
+    6 "beta 0 is not the inverse of beta 1", 7 "beta 2 is not a fixed-point-free involution",
+    8 "unused ID is not a free dart, or is listed twice", 9 "vertex ID is not an existing dart" -/
 def errInconsistent (c : Nat) : Err := ⟨"InconsistentData", [c]⟩
 /-- 0,1,2 "could not parse a b{0,1,2} value", 3 "could not parse an unused ID",
     4 "incorrect vertex line format", 5 "could not parse vertex ID", 6 / 7 x / y coordinate -/
@@ -319,31 +322,64 @@ def forceWriteVertex (id : Nat) (v : Val) : P Val (Option Val) := do
   wA 0 id (some v)
   pure old
 
-/-- the `multizip` loop: the values are parsed when their dart is reached, b0 before b1
-    before b2; column 0 has been skipped *without being parsed* -/
-def betasLoop : Nat → List String → List String → List String → Map Val → Out Err (Map Val)
-  | d, t0 :: r0, t1 :: r1, t2 :: r2, m =>
+/-- the parsing `multizip` loop: every image, null-dart column included, dart by dart in the
+    order b0, b1, b2; the first token that is not a `u32` aborts with its `BadValue` -/
+def parseRows : List String → List String → List String →
+    Except Err (List Nat × List Nat × List Nat)
+  | t0 :: r0, t1 :: r1, t2 :: r2 =>
     match parseU32 t0 with
-    | none => .err (errBadValue 0)
+    | none => .error (errBadValue 0)
     | some b0 =>
       match parseU32 t1 with
-      | none => .err (errBadValue 1)
+      | none => .error (errBadValue 1)
       | some b1 =>
         match parseU32 t2 with
-        | none => .err (errBadValue 2)
+        | none => .error (errBadValue 2)
         | some b2 =>
-          match atomically (setBetas d b0 b1 b2) m with
-          | (.ok _, m') => betasLoop (d + 1) r0 r1 r2 m'
-          | _ => .panic
-  | _, _, _, _, m => .ok m
+          match parseRows r0 r1 r2 with
+          | .error e => .error e
+          | .ok rows => .ok (b0 :: rows.1, b1 :: rows.2.1, b2 :: rows.2.2)
+  | _, _, _ => .ok ([], [], [])
 
-/-- `for u in unused.split_whitespace() { map.remove_free_dart(u.parse()?) }` -/
+/-- `images[d][i]` -/
+def tbl (rows : List Nat × List Nat × List Nat) (i d : Nat) : Nat :=
+  match i with
+  | 0 => rows.1.getD d 0
+  | 1 => rows.2.1.getD d 0
+  | 2 => rows.2.2.getD d 0
+  | _ => 0
+
+/-- `images[0] == [0, 0, 0]` -/
+def nullOK (T : Nat → Nat → Nat) : Bool :=
+  decide (T 0 0 = 0) && decide (T 1 0 = 0) && decide (T 2 0 = 0)
+
+/-- `!images.iter().flatten().any(|&b| b >= n_darts)` -/
+def rangeOK (T : Nat → Nat → Nat) (n : Nat) : Bool :=
+  (List.range n).all fun d => decide (T 0 d < n) && decide (T 1 d < n) && decide (T 2 d < n)
+
+/-- the two tests of the per-dart loop, the inverse test first -/
+def dartCheck (T : Nat → Nat → Nat) (d : Nat) : Option Err :=
+  if (T 1 d ≠ 0 ∧ T 0 (T 1 d) ≠ d) ∨ (T 0 d ≠ 0 ∧ T 1 (T 0 d) ≠ d) then some (errInconsistent 6)
+  else if T 2 d ≠ 0 ∧ (T 2 (T 2 d) ≠ d ∨ T 2 d = d) then some (errInconsistent 7)
+  else none
+
+/-- `for (d, imgs) in images.iter().enumerate().skip(1) { map.set_betas(d, imgs) }` -/
+def setLoop (T : Nat → Nat → Nat) : List Nat → Map Val → Out Err (Map Val)
+  | [], m => .ok m
+  | d :: ds, m =>
+    match atomically (setBetas d (T 0 d) (T 1 d) (T 2 d)) m with
+    | (.ok _, m') => setLoop T ds m'
+    | _ => .panic
+
+/-- the `[UNUSED]` loop: parse, validate (`d == 0 || d >= n_darts || !is_free(d) || is_unused(d)`,
+    short-circuit), `remove_free_dart` (whose assertions can no longer fire) -/
 def unusedLoop : List String → Map Val → Out Err (Map Val)
   | [], m => .ok m
   | t :: ts, m =>
     match parseU32 t with
     | none => .err (errBadValue 3)
     | some d =>
+      if d = 0 || decide (m.n ≤ d) || !m.isFree 3 d || m.unused d then .err (errInconsistent 8) else
       match m.removeFreeDart 3 d with
       | (.ok _, m') => unusedLoop ts m'
       | _ => .panic
@@ -354,27 +390,36 @@ def writeVertex (id : Nat) (v : Val) (m : Map Val) : Out Err (Map Val) :=
   | (.ok _, m') => .ok m'
   | _ => .panic
 
-/-- one line of the `[VERTICES]` section -/
-def vertexStep (l : Line) (m : Map Val) : Out Err (Map Val) :=
+/-- the format checks of one `[VERTICES]` line, in the order of the code -/
+def parseVertexLine (l : Line) : Except Err (Nat × Rat × Rat) :=
   match l with
-  | [] => .err (errBadValue 4)
+  | [] => .error (errBadValue 4)
   | tid :: r =>
     match parseU32 tid with
-    | none => .err (errBadValue 5)
+    | none => .error (errBadValue 5)
     | some id =>
       match r with
-      | [] => .err (errBadValue 4)
+      | [] => .error (errBadValue 4)
       | tx :: r =>
         match parseCoord tx with
-        | none => .err (errBadValue 6)
+        | none => .error (errBadValue 6)
         | some x =>
           match r with
-          | [] => .err (errBadValue 4)
+          | [] => .error (errBadValue 4)
           | ty :: r =>
             match parseCoord ty with
-            | none => .err (errBadValue 7)
+            | none => .error (errBadValue 7)
             | some y =>
-              if !r.isEmpty then .err (errBadValue 4) else writeVertex id (.pt x y 0) m
+              if !r.isEmpty then .error (errBadValue 4) else .ok (id, x, y)
+
+/-- one line of the `[VERTICES]` section: format, then
+    `id == 0 || id >= n_darts || is_unused(id)` (short-circuit), then the write -/
+def vertexStep (l : Line) (m : Map Val) : Out Err (Map Val) :=
+  match parseVertexLine l with
+  | .error e => .err e
+  | .ok v =>
+    if v.1 = 0 || decide (m.n ≤ v.1) || m.unused v.1 then .err (errInconsistent 9)
+    else writeVertex v.1 (.pt v.2.1 v.2.2 0) m
 
 def verticesLoop : List Line → Map Val → Out Err (Map Val)
   | [], m => .ok m
@@ -383,22 +428,34 @@ def verticesLoop : List Line → Map Val → Out Err (Map Val)
     | .ok m' => verticesLoop ls m'
     | o => o
 
-/-- `build_2d_from_cmap_file`; `ns` = number of attribute storages of the builder's manager
-    plus one (storage 0 = vertices), all created undefined with `n_darts` slots -/
+/-- `build_2d_from_cmap_file` (after the validation fix 7170072); `ns` = number of attribute
+    storages of the builder's manager plus one (storage 0 = vertices), all created undefined with
+    `n_darts` slots.  Order: dimension, number and lengths of the β lines, parse every image,
+    null dart, range, per dart inverse / β2, `set_betas`, `[UNUSED]`, `[VERTICES]`. -/
 def build (ns : Nat) (f : CFile) : Out Err (Map Val) :=
   if f.dim ≠ 2 then .err (errBadMeta 3) else
-  let m0 : Map Val := Map.empty 3 ns (f.nd + 1)
+  let n := f.nd + 1
+  let m0 : Map Val := Map.empty 3 ns n
   match f.betas with
   | [l0, l1, l2] =>
-    if l0.length ≠ f.nd + 1 then .err (errInconsistent 1) else
-    if l1.length ≠ f.nd + 1 then .err (errInconsistent 2) else
-    if l2.length ≠ f.nd + 1 then .err (errInconsistent 3) else
-    match betasLoop 1 (l0.drop 1) (l1.drop 1) (l2.drop 1) m0 with
-    | .ok m1 =>
-      match unusedLoop ((f.unused.getD []).flatten) m1 with
-      | .ok m2 => verticesLoop (f.vertices.getD []) m2
-      | o => o
-    | o => o
+    if l0.length ≠ n then .err (errInconsistent 1) else
+    if l1.length ≠ n then .err (errInconsistent 2) else
+    if l2.length ≠ n then .err (errInconsistent 3) else
+    match parseRows l0 l1 l2 with
+    | .error e => .err e
+    | .ok rows =>
+      let T := tbl rows
+      if !nullOK T then .err (errInconsistent 4) else
+      if !rangeOK T n then .err (errInconsistent 5) else
+      match (List.range' 1 f.nd).findSome? (dartCheck T) with
+      | some e => .err e
+      | none =>
+        match setLoop T (List.range' 1 f.nd) m0 with
+        | .ok m1 =>
+          match unusedLoop ((f.unused.getD []).flatten) m1 with
+          | .ok m2 => verticesLoop (f.vertices.getD []) m2
+          | o => o
+        | o => o
   | _ => .err (errInconsistent 0)
 
 /-- the two stages in sequence (as `builder/tests.rs` chains them); through the public
